@@ -30,4 +30,28 @@ def wiresharkValue (p : Payload) (which : String) (off len : Nat) (fix : Option 
   | some k => if tvbBitfield buf off 1 == 1 then (v : Int) - (k : Int) else (v : Int)
   | none => (v : Int)
 
+/-- the dissector's value with the sign probe read where the generated code reads it -/
+def wiresharkValueProbe (p : Payload) (which : String) (off len : Nat) (probeWhich : String) (probeOff : Nat) (fix : Option Nat) : Int :=
+  let buf := if which == "reversed_pdu" then p.reverse else p
+  let pbuf := if probeWhich == "reversed_pdu" then p.reverse else p
+  let v := tvbBitfield buf off len
+  match fix with
+  | some k => if tvbBitfield pbuf probeOff 1 == 1 then (v : Int) - (k : Int) else (v : Int)
+  | none => (v : Int)
+
+/-- FIBEX base data types (ASAM): name, container width, signed, float -/
+def fibexTypes : List (String × Nat × Bool × Bool) :=
+  [("A_INT8", 8, true, false), ("A_UINT8", 8, false, false), ("A_INT16", 16, true, false), ("A_UINT16", 16, false, false),
+   ("A_INT32", 32, true, false), ("A_UINT32", 32, false, false), ("A_INT64", 64, true, false), ("A_UINT64", 64, false, false),
+   ("A_FLOAT32", 32, true, true), ("A_FLOAT64", 64, true, true)]
+
+/-- the recorded type states the signal's signedness / float-ness and a container at least as wide as the signal -/
+def fibexTypeOk (t : Option String) (size : Nat) (signed isFloat : Bool) : Bool :=
+  match t with
+  | none => false
+  | some ty =>
+    match fibexTypes.find? (·.1 == ty) with
+    | some (_, w, sg, fl) => decide (size ≤ w) && fl == isFloat && (isFloat || sg == signed)
+    | none => false
+
 end CanVerif.Spec
